@@ -549,6 +549,8 @@ class XrPlugin:
         if name == "argmax":
             return method(lambda i, s, a, k: xa_argmax(i, s, o, s.deref(k["dim"]) if "dim" in k else s.deref(a[0]),
                                                        skipna=(True if k.get("skipna", True) is None else bool(s.deref(k.get("skipna", True))))))
+        if name == "__getitem__":
+            return method(lambda i, s, a, k: self.special_getitem(i, s, ref, o, a[0]))
         if name == "copy":
             return method(lambda i, s, a, k: mk_xa(s, f["dims"], f["arr"], f["nan"], f["coords"], f["masks"], f["name"]))
         if name == "drop" or name == "drop_vars":
@@ -733,6 +735,32 @@ class XrPlugin:
                                 cs.setdefault(ck, cv)
                 return s.alloc(Obj("Dataset", {"vars": nv, "coords": cs}), "Dataset")
             return LibFunc("Dataset.assign", lib._wrap("xarray.Dataset.assign", assign))
+        if name == "dims":
+            # names of the dimensions of the variables (in order of first appearance)
+            ds_ = []
+            for v in o.fields["vars"].values():
+                x = st.deref(v)
+                if is_xa(x):
+                    for d in x.fields["dims"]:
+                        if d not in ds_:
+                            ds_.append(d)
+            return tuple(ds_)
+        if name == "reset_coords":
+            def reset(i, s, a, k):
+                nm = s.deref(a[0] if a else k["names"])
+                if not isinstance(nm, str) or k.get("drop"):
+                    raise Unsupported("reset_coords: only a single name, drop=False")
+                from ..interp import PyRaise
+                if nm not in o.fields["coords"]:
+                    raise PyRaise(ExcVal("ValueError", ("not a coordinate",)))
+                c = o.fields["coords"][nm]
+                if c.ndim != 0:
+                    raise PyRaise(ExcVal("ValueError", ("cannot remove index coordinates with reset_coords",)))
+                # a non-index (scalar) coordinate becomes a data variable with the same value
+                nv = dict(o.fields["vars"])
+                nv[nm] = mk_xa(s, (), c, None, {})
+                return s.alloc(Obj("Dataset", {"vars": nv, "coords": {kk: vv for kk, vv in o.fields["coords"].items() if kk != nm}}), "Dataset")
+            return LibFunc("Dataset.reset_coords", lib._wrap("xarray.Dataset.reset_coords", reset))
         if name in o.fields["vars"] or name in o.fields["coords"]:
             return self._ds_get(interp, st, o, name)
         return NotImplemented
